@@ -908,7 +908,7 @@ def search(ctx):
         text, _ = gen_block(rng)
         if run({"kind": "h2n", "text": text, "img": rng.random() < 0.7, "adm": rng.random() < 0.7, "gfm": rng.random() < 0.3}):
             return
-    for _ in range(ctx.budget(2500, 25000, 25000)):
+    for _ in range(ctx.budget(2500, 12000, 12000)):
         if run(gen_conv(rng)):
             return
     # full pipeline (docutils front end)
@@ -932,12 +932,12 @@ def search(ctx):
             return
     # two-step histories: an earlier fragment (same document / earlier document / earlier direct call) must not change how a
     # later <img> / admonition converts
-    for i in range(ctx.budget(1500, 15000, 15000)):
+    for i in range(ctx.budget(1500, 8000, 8000)):
         case = gen_conv(rng)
         case["before"] = [rng.choice(DIRTY_FRAGMENT) for _ in range(rng.choice([1, 1, 2]))]
         if run(case):
             return
-    for i in range(ctx.budget(120, 1200, 1200)):
+    for i in range(ctx.budget(120, 600, 600)):
         hist = {"prefix": rng.choice(DIRTY_MD)} if i % 2 == 0 else {"before": [rng.choice(DIRTY_DOC) for _ in range(rng.choice([1, 2]))]}
         if i % 4 < 2:
             case = {"kind": "img", "attrs": [["src", rng.choice(["a.png", "img/b.jpg"])]] + rng.choice([[], [["alt", "an *alt*"]], [["width", "30%"], ["class", "a b"]]]),
